@@ -12,7 +12,10 @@ THEOREMS = ["LNN.C16_leaves_invariant",
             "LNN.C16_second_run",
             "LNN.C16_fol_data_untouched",
             "LNN.C16_fol_reset_after_inference",
-            "LNN.C16_fol_reset_reads_data"]
+            "LNN.C16_fol_reset_reads_data",
+            "LNN.C16_fol_reset_is_fresh_plus_rows",
+            "LNN.C16_fol_reset_exact_of_no_growth",
+            "LNN.C16_fol_rerun_equal_of_no_growth"]
 MODULES = ["LnnVerif.Props.C16"]
 FACETS = {"bounds", "reported"}
 
